@@ -38,7 +38,7 @@ From CSL Require Import Base.Prelude.
 Local Open Scope N_scope.
 
 Definition key := N.      (* Ed25519KeyHash *)
-Definition sid := N.      (* ScriptHash; an inline script is identified with its hash *)
+Definition sid := N.      (* ScriptHash; an inline script is identified with its hash (for Plutus: bytes AND language) *)
 Definition oref := N.     (* TransactionInput; N order = (tx id, index) order *)
 Definition baddr := N.    (* ByronAddress bytes *)
 Definition did := N.      (* PlutusData used as datum *)
